@@ -54,7 +54,7 @@ func Harness_C10_online_counter_step() {
 	_, attached := t.sessions[s]
 	base := ClientComMessage{Id: "r1", AsUser: u.UserId(), AuthLvl: int(auth.LevelAuth), Original: t.name, RcptTo: t.name,
 		Timestamp: types.TimeNow(), sess: s, init: true}
-	switch verifChoose("event", 5) {
+	switch verifChoose("event", 7) {
 	case 0: // attach
 		verifAssume(!attached)
 		s.inflightReqs.Add(1)
@@ -80,6 +80,16 @@ func Harness_C10_online_counter_step() {
 		msg := base
 		msg.Leave = &MsgClientLeave{Id: "r1", Topic: t.name, Unsub: true}
 		t.unregisterSession(&msg)
+	case 5: // the user's sessions are evicted: banned (subscription kept) or removed
+		verifAssume(u != t.owner)
+		t.evictUser(u, verifNondetBool("evictUnsub"), "")
+	case 6: // self-ban through a real {set sub mode=N} request
+		verifAssume(attached && u != t.owner)
+		s.inflightReqs.Add(1)
+		msg := base
+		msg.Set = &MsgClientSet{Id: "r1", Topic: t.name, MsgSetQuery: MsgSetQuery{Sub: &MsgSetSub{Mode: "N"}}}
+		msg.MetaWhat = constMsgMetaSub
+		t.handleMeta(&msg)
 	}
 	for _, v := range fx.uids {
 		pud, in := t.perUser[v]
